@@ -44,7 +44,8 @@ for c in checks:
     t = time.time()
     rc, o = sh("VERIF_REPO=%s ./check %s --tier quick" % (wt, c), cwd=V)
     lines = [l for l in o.splitlines() if l.startswith("VIOLATION") or l.startswith("OK ") or l.startswith("FAIL ") or l.startswith("KNOWN") or "broken:" in l]
-    res["checks"][c] = {"exit": rc, "lines": [l[:400] for l in lines], "wall_s": round(time.time() - t, 1)}
+    lines.sort(key=lambda l: 0 if l.startswith(("VIOLATION", "FAIL", "OK ")) or "broken:" in l else 1)
+    res["checks"][c] = {"exit": rc, "lines": [l[:400] for l in lines[:12]], "wall_s": round(time.time() - t, 1)}
     print(c, "exit", rc, *lines[:4], sep="\n   ")
 dst = os.path.join(V, "seeded", name)
 os.makedirs(dst, exist_ok=True)
